@@ -416,7 +416,12 @@ impl<'a> G<'a> {
                 0 => E::Bin(Bop::Concat, self.expr(Ty::Str, d).b(), self.expr(Ty::Str, d).b()),
                 1 => {
                     let a = self.expr(Ty::Str, d);
-                    let f = if self.chance(80) { Some(self.small_i32(d).b()) } else { None };
+                    let f = if self.chance(80) {
+                        // also positions counted from the end
+                        Some(if self.chance(25) { E::Lit(Ty::I32, V::I([-1, -2, -3][self.pick(3)])).b() } else { self.small_i32(d).b() })
+                    } else {
+                        None
+                    };
                     let l = if self.chance(70) { Some(self.small_i32(d).b()) } else { None };
                     E::Substr(a.b(), f, l)
                 }
